@@ -171,8 +171,6 @@ def _parse_block(b):
     r['failed_checks'] = fc
     m = re.search(r'Verification Time: ([0-9.]+)s', b)
     r['time_s'] = float(m.group(1)) if m else None
-    if 'unwinding assertion' in b:
-        r['unwinding_failure'] = True
     return r
 
 
